@@ -98,6 +98,21 @@ def batched_khi(rng, N, dens, shape, ax, conserving=True, p_batch=0.5, kin=None)
     return khi
 
 
+def prefix_array(rng, vals, shape, ax=None, unit_at_ax=False):
+    """parameter array of LOWER OR EQUAL rank than the batch: its axes are a left-aligned prefix of `shape`
+    (append semantics), each of full size or 1 -- e.g. a plain vector of shape[0] values for axis >= 1"""
+    r = rng.randint(1, len(shape))
+    dims = [shape[d] if rng.random() < 0.75 else 1 for d in range(r)]
+    if unit_at_ax and ax is not None and ax < r:
+        dims[ax] = 1
+    return np.array([rng.choice(vals) for _ in range(int(np.prod(dims)))]).reshape(dims).tolist()
+
+
+def lshape(*shapes):
+    """left-aligned broadcast of shapes (the package's append semantics)"""
+    return list(np.broadcast_shapes(*[tuple(reversed(tuple(x))) for x in shapes]))[::-1]
+
+
 class ShapeDefect(Exception):
     pass
 
@@ -228,8 +243,10 @@ def gen_generator_case(rng):
     N = rng.choice([2, 2, 3])
     shape = [rng.choice([1, 2, 2, 3]) for _ in range(ndim)]
     shape[ax] = N
+    if ndim > 1 and rng.random() < 0.5:
+        shape[rng.choice([d for d in range(ndim) if d != ax])] = N      # a batch length that coincides with ncomp
     while np.prod(shape) > 12:
-        shape[rng.choice([d for d in range(ndim) if d != ax])] -= 1
+        shape[rng.choice([d for d in range(ndim) if d != ax and shape[d] > 1])] -= 1
     dens = [rng.choice([0.5, 1.0, 2.0]) for _ in range(N)]
     K = kinetic(rng, N, dens, True)
     if rng.random() < 0.65:
@@ -238,11 +255,13 @@ def gen_generator_case(rng):
         khi = K[(None,) * ax]
 
     def par(vals, allow_none=True):
-        mode = rng.choice(["none", "scalar", "comp", "batch"] if allow_none else ["scalar", "comp", "batch"])
+        mode = rng.choice(["none", "scalar", "comp", "batch", "prefix", "prefix"] if allow_none else ["scalar", "comp", "batch", "prefix"])
         if mode == "none":
             return None
         if mode == "scalar":
             return rng.choice(vals)
+        if mode == "prefix":
+            return prefix_array(rng, vals, shape, ax)
         if mode == "comp":
             return np.array([rng.choice(vals) for _ in range(N)]).reshape([1] * ax + [N]).tolist()
         return np.array([rng.choice(vals) for _ in range(int(np.prod(shape)))]).reshape(shape).tolist()
@@ -250,8 +269,8 @@ def gen_generator_case(rng):
     G = [0.0, 0.5, -0.5, 1.0, -2.0, 0.25]
     tshape = list(shape)
     tshape[ax] = 1
-    tau_mode = rng.choice(["scalar", "batch"])
-    tau = rng.choice([0.5, 1.0, 2.0]) if tau_mode == "scalar" else \
+    tau_mode = rng.choice(["scalar", "batch", "prefix"])
+    tau = rng.choice([0.5, 1.0, 2.0]) if tau_mode == "scalar" else prefix_array(rng, [0.5, 1.0, 2.0, 4.0], shape, ax) if tau_mode == "prefix" else \
         np.array([rng.choice([0.5, 1.0, 2.0, 4.0]) for _ in range(int(np.prod(tshape)))]).reshape(tshape).tolist()
     return {"kind": "generator", "ax": ax, "khi": khi.tolist(), "tau": tau, "T1": par(T), "T2": par(T), "g": par(G)}
 
@@ -474,6 +493,8 @@ def gen_real_case(rng):
     ndim = rng.choice([1, 2, 2, 3, 3])
     ax = rng.randrange(ndim)
     smshape = [rng.choice([1, 2, 3, 3]) for _ in range(ndim)]
+    if ndim > 1 and rng.random() < 0.5:
+        smshape[rng.choice([d for d in range(ndim) if d != ax])] = N      # a batch length that coincides with ncomp
     smshape[ax] = N
     dens = [rng.choice([0.5, 1.0, 2.0, 3.0]) for _ in range(N)]
     scalar_khi = N == 2 and rng.random() < 0.4
@@ -508,14 +529,17 @@ def gen_real_case(rng):
         r = rng.random()
         if r < none_p:
             return None
-        if r < 0.5:
+        if r < 0.45:
             return rng.choice(vals)
-        if r < 0.8:
+        if r < 0.6:
             return np.array([rng.choice(vals) for _ in range(N)]).reshape([1] * ax + [N]).tolist()
+        if r < 0.85:
+            return prefix_array(rng, vals, smshape, ax)          # lower-rank vectors, lengths may coincide with ncomp
         return np.array([rng.choice(vals) for _ in range(int(np.prod(smshape)))]).reshape(smshape).tolist()
     tshape = list(smshape)
     tshape[ax] = 1
-    tau = rng.choice([0.0, 1.0, 3.0, 8.0]) if rng.random() < 0.6 else \
+    r = rng.random()
+    tau = rng.choice([0.0, 1.0, 3.0, 8.0]) if r < 0.45 else prefix_array(rng, [0.5, 2.0, 5.0], smshape, ax, unit_at_ax=True) if r < 0.7 else \
         np.array([rng.choice([0.0, 0.5, 2.0, 5.0]) for _ in range(int(np.prod(tshape)))]).reshape(tshape).tolist()
     return {"kind": "real", "N": N, "ax": ax, "smshape": smshape, "stshape": stshape, "khi": khi, "dens": dens, "K": K.tolist(), "scalar_khi": scalar_khi,
             "tau": tau, "T1": par([300.0, 1000.0, float("inf")]), "T2": par([20.0, 80.0, float("inf")]),
@@ -576,6 +600,12 @@ def check_real_case(ctx, c):
     N, ax = c["N"], c["ax"]
     tol = lambda ref: 1e-9 * (1 + np.abs(ref).max())
     op = build_real(c)
+    want = lshape(np.shape(c["tau"]), *[np.shape(c[k]) for k in ("T1", "T2", "g") if c[k] is not None], real_khi(c).shape[:-1])
+    if list(op.shape) != want:
+        return ("operator shape %s, expected the left-aligned broadcast %s of tau %s, T1 %s, T2 %s, g %s and the khi batch axes %s" % (
+            tuple(op.shape), tuple(want), np.shape(c["tau"]), np.shape(c["T1"]) if c["T1"] is not None else None,
+            np.shape(c["T2"]) if c["T2"] is not None else None, np.shape(c["g"]) if c["g"] is not None else None,
+            real_khi(c).shape[:-1]), "operator-shape")
     sm = real_state(c)
     out = op(sm)
     o = np.array(out.states)
@@ -709,6 +739,52 @@ def boundary_probes(ctx):
             ctx.report("%s: result differs from the Bloch-McConnell solution by %.3g" % (what, err), {"probe": p}, found_input=True, signature=sig)
         elif err2 > 1e-9:
             ctx.report("%s: result differs from the scalar runs X(tau, k_b) by %.3g" % (what, err2), {"probe": p}, found_input=True, signature=sig)
+    # parameter vectors of lower rank than the batch, whose length coincides with ncomp: under append semantics a plain
+    # vector lies on axis 0 -- a batch of cases when axis > 0, the compartments only when axis = 0
+    S5 = {"site": "exchange_operator", "why": "parameter-vector-rank"}
+    vec = [
+        ("axis=1, T1, T2 plain vectors of 2 values (2 compartments): two cases", 1, 2, {"T1": [300.0, 1200.0], "T2": [25.0, 90.0]}, 6.0, (2, 2)),
+        ("axis=1, g plain vector of 2 values", 1, 2, {"g": [0.01, -0.03], "T2": 40.0}, 5.0, (2, 2)),
+        ("axis=1, tau plain vector of 2 values", 1, 2, {"T2": [[30.0, 80.0]]}, [2.0, 7.0], (2, 2)),
+        ("axis=1, 3 compartments, T2 plain vector of 3 values", 1, 3, {"T2": [25.0, 90.0, 50.0], "T1": 500.0}, 4.0, (3, 3)),
+        ("axis=2, T2 plain vector of 2 values, g of shape (2, 3)", 2, 2, {"T2": [25.0, 90.0], "g": [[0.0, 0.01, -0.02], [0.02, 0.0, 0.01]]}, 4.0, (2, 3, 2)),
+        ("axis=2, T1 of shape (1, 2) (length 2 on axis 1), tau plain vector of 2", 2, 2, {"T1": [[300.0, 900.0]], "T2": 60.0}, [3.0, 5.0], (2, 2, 2)),
+        ("axis=0, T2 plain vector of 2 values: per compartment", 0, 2, {"T2": [25.0, 90.0], "g": [0.0, 0.02]}, 5.0, (2,)),
+        ("axis=0, T2 of shape (1, 2): two cases, common to the compartments", 0, 2, {"T2": [[25.0, 90.0]]}, 5.0, (2, 2)),
+    ]
+    for what, ax, N, pars, tau, want in vec:
+        ctx.count(("probe", what), nontrivial=True)
+        p = {"what": what, "axis": ax, "ncomp": N, "params": pars, "tau": tau}
+        W = np.array([[0, 0.1, 0.05], [0.1, 0, 0.2], [0.05, 0.2, 0]])[:N, :N]
+        K = np.diag(W.sum(0)) - W
+        rs = np.random.default_rng(9)
+        st = rs.normal(size=tuple(want) + (3, 3)) + 1j * rs.normal(size=tuple(want) + (3, 3))
+        try:
+            op = ex.X(tau, K[(None,) * ax], axis=ax, **pars)
+            if tuple(op.shape) != tuple(want):
+                ctx.report("%s: operator shape %s, expected %s (left-aligned broadcast)" % (what, tuple(op.shape), tuple(want)), {"probe": p},
+                           found_input=True, signature=S5)
+                continue
+            sm = epg.StateMatrix(st, density=1.0, check=False)
+            eqa = np.broadcast_to(np.array(sm.equilibrium), st.shape)
+            o = np.array(op(sm).states)
+        except Exception as e:
+            ctx.report("%s: valid input raises %s: %s" % (what, type(e).__name__, str(e)[:120]), {"probe": p}, found_input=True, signature=S5)
+            continue
+        err = err2 = 0.0
+        for b in itertools.product(*[range(d) for i, d in enumerate(want) if i != ax]):
+            full = lambda i: b[:ax] + (i,) + b[ax:]
+            v = {k: [float(lget(np.asarray(pars[k], float), full(i))) if k in pars else d for i in range(N)]
+                 for k, d in (("T1", np.inf), ("T2", np.inf), ("g", 0.0))}
+            ta = float(lget(np.asarray(tau, float), full(0))) if np.ndim(tau) else float(tau)
+            stf = np.array([st[full(i)] for i in range(N)])
+            got = np.array([o[full(i)] for i in range(N)])
+            ref = ref_apply(stf, np.array([eqa[full(i)] for i in range(N)]), K, v["T1"], v["T2"], v["g"], ta)
+            sc = np.array(ex.X(ta, K, T1=v["T1"], T2=v["T2"], g=v["g"])(epg.StateMatrix(stf, density=1.0, check=False)).states)
+            err, err2 = max(err, np.abs(ref - got).max()), max(err2, np.abs(sc - got).max())
+        if err > 1e-9 or err2 > 1e-9:
+            ctx.report("%s: result differs from the Bloch-McConnell solution by %.3g and from the scalar runs of each case by %.3g" % (what, err, err2),
+                       {"probe": p}, found_input=True, signature=S5)
     # defective generator through the operator
     ctx.count(("probe", "defective"), nontrivial=True)
     sm = epg.StateMatrix([[[0, 0, 1]], [[1, 1, 0]]], density=[1, 0], check=False)
